@@ -18,7 +18,25 @@ def trusted():
                    ("Assumptions: " + "; ".join(c.get("assumptions", [])) + ". ") if c.get("assumptions") else "",
                    ("Also trusted: " + "; ".join(c.get("trusted_base_extra", [])) + ".") if c.get("trusted_base_extra") else ""))
     return "\n".join(out) + "\n"
-gens = {"SEEDS": seeds, "TRUSTED": trusted}
+def clauses():
+    out = []
+    props = {}
+    for l in open(os.path.join(ROOT, "properties.jsonl")):
+        q = json.loads(l); props[q["id"]] = q
+    for f in sorted(glob.glob(os.path.join(ROOT, "checks", "C*.json"))):
+        c = json.load(open(f))
+        m = c.get("clause_map")
+        out.append("### %s — %s\n" % (c["id"], props.get(c["id"], {}).get("title", "")))
+        if not m:
+            out.append("(no clause map recorded yet)\n"); continue
+        out.append("| clause of the statement | how decided | theorems (coq/Props/%s.v) | note |" % c["id"])
+        out.append("|---|---|---|---|")
+        for r in m:
+            out.append("| %s | %s | %s | %s |" % (r.get("clause", "").replace("|", "/"), r.get("how", ""),
+                       ", ".join("`%s`" % t if not t.startswith("(") else t for t in r.get("theorems", [])) or "-", (r.get("note") or "").replace("|", "/")))
+        out.append("")
+    return "\n".join(out) + "\n"
+gens = {"SEEDS": seeds, "TRUSTED": trusted, "CLAUSES": clauses}
 p = os.path.join(ROOT, "DESIGN.md")
 s = open(p).read()
 for name, fn in gens.items():
